@@ -164,3 +164,80 @@ func runMutants(prop, repo, dir string) mutResult {
 	}
 	return res
 }
+
+// Silence self-test (thorough tier, only when the tree itself raised no violation): every behaviour-preserving
+// variant under /verif/benign is applied to a scratch copy and the property's quick check must stay silent on it. An
+// alarm on such a variant means a rule matches too syntactically: the run fails with SELFTEST-FAILED.
+func runBenign(prop, repo, dir string) mutResult {
+	var res mutResult
+	patches, _ := filepath.Glob(filepath.Join(dir, "*.patch"))
+	sort.Strings(patches)
+	res.Total = len(patches)
+	type out struct {
+		line            string
+		silent, skipped bool
+	}
+	outs := make([]out, len(patches))
+	sem := make(chan struct{}, 6)
+	var wg sync.WaitGroup
+	for i, pt := range patches {
+		wg.Add(1)
+		go func(i int, pt string) {
+			defer wg.Done()
+			sem <- struct{}{}
+			defer func() { <-sem }()
+			name := strings.TrimSuffix(filepath.Base(pt), ".patch")
+			tmp, err := os.MkdirTemp("", "shmlint_ben_")
+			if err != nil {
+				outs[i] = out{name + ": no scratch dir", false, true}
+				return
+			}
+			defer os.RemoveAll(tmp)
+			if err := copyTree(repo, tmp); err != nil {
+				outs[i] = out{name + ": copy failed", false, true}
+				return
+			}
+			pc := exec.Command("patch", "-p1", "-s", "-i", pt)
+			pc.Dir = tmp
+			if _, err := pc.CombinedOutput(); err != nil {
+				outs[i] = out{name + ": SKIPPED (patch no longer applies)", false, true}
+				return
+			}
+			cmd := exec.Command(os.Args[0], "-prop", prop, "-tier", "quick", "-repo", tmp, "-no-evidence")
+			o, err := cmd.CombinedOutput()
+			code := 0
+			if ee, ok := err.(*exec.ExitError); ok {
+				code = ee.ExitCode()
+			}
+			switch code {
+			case 0:
+				outs[i] = out{name + ": silent", true, false}
+			case 2:
+				outs[i] = out{name + ": SKIPPED (variant does not load)", false, true}
+			default:
+				first := ""
+				for _, l := range strings.Split(string(o), "\n") {
+					if strings.HasPrefix(l, "  R") {
+						first = strings.TrimSpace(l)
+						break
+					}
+				}
+				outs[i] = out{name + ": FALSE ALARM on a behaviour-preserving variant: " + first, false, false}
+			}
+		}(i, pt)
+	}
+	wg.Wait()
+	for _, o := range outs {
+		switch {
+		case o.silent:
+			res.Killed++
+		case o.skipped:
+			res.Skipped++
+		default:
+			res.Failed++
+			res.FailLines = append(res.FailLines, "property="+prop+" "+o.line)
+			res.Lines = append(res.Lines, o.line)
+		}
+	}
+	return res
+}
